@@ -59,7 +59,7 @@ func init() {
 func c12Pre(p *engine.Parent) error {
 	dir := filepath.Join(p.BuildDir(), "instr")
 	os.RemoveAll(dir)
-	res, err := instr.Instrument("/repo", dir)
+	res, err := instr.Instrument(repoDir(), dir)
 	if err != nil {
 		return fmt.Errorf("instrumenting /repo: %v", err)
 	}
